@@ -7,6 +7,7 @@ path resolver.
 
 from __future__ import annotations
 
+import itertools
 import json
 
 from typing import Any
@@ -82,6 +83,9 @@ def src_of(ops: list, partials: dict[str, str]) -> str:
             out.append("{% block " + op[1] + " %}BASE-DEFAULT{% endblock %}")
             partials.setdefault("__child_blocks", "")
             partials["__child_blocks"] += "{% block " + op[1] + " %}" + src_of(op[2], partials) + "{% endblock %}"
+        elif k == "render":
+            partials[op[1]] = src_of(op[3], partials)
+            out.append("{% render '" + op[1] + "'" + ("".join(f", {n}: {pv(v)}" for n, v in op[2].items())) + " %}")
         elif k == "macrocall":
             out.append("{% macro " + op[1] + " " + ", ".join(op[2]) + " %}" + src_of(op[4], partials) + "{% endmacro %}")
             out.append("{% call " + op[1] + (" " + ", ".join(f"{n}: {pv(v)}" for n, v in op[3].items()) if op[3] else "") + " %}")
@@ -222,6 +226,16 @@ class RScope:
                 out.append(self.run(op[1]))
             elif k == "oblock":
                 out.append(self.run(op[2]))
+            elif k == "render":
+                # an isolated scope: its keyword arguments (evaluated in the caller's scope), then the global layers; nothing of the caller's
+                # locals, block scopes or of the arguments of a render further out
+                frame = {n: (self.lookup(v[1:]) if v.startswith("@") else v) for n, v in op[2].items()}
+                saved = (self.stack, self.locals, self.margs, self.counters)
+                self.stack, self.locals, self.margs, self.counters = [], {}, frame, {}
+                try:
+                    out.append(self.run_top(op[3]))
+                finally:
+                    self.stack, self.locals, self.margs, self.counters = saved
             elif k == "macrocall":
                 frame = {n: (self.lookup(v[1:]) if v.startswith("@") else v) for n, v in op[3].items()}
                 for n in op[2]:
@@ -617,6 +631,30 @@ def abandoned_blocks():
                 yield [b1([["probe", "a"], b2([["probe", "b"], f]), ["probe", "a"]])] + tail
 
 
+def nested_render_programs():
+    """render inside render inside render (up to four deep), each with its own keyword arguments, around assigns and loops of the same names:
+    the innermost body sees its own arguments and the global layers, nothing of any scope in between."""
+    probes = [["probe", n] for n in ("a", "b", "c")]
+    kws = [{}, {"a": "R1"}, {"b": "@a"}, {"a": "R2", "c": "@b"}]
+    pid = 0
+    for depth in (1, 2, 3, 4):
+        for combo in itertools.product(range(len(kws)), repeat=depth):
+            if depth == 4 and sum(combo) % 3:
+                continue
+            body = list(probes)
+            for level, ki in enumerate(reversed(combo)):
+                pid += 1
+                pre = [["assign", "a", f"L{level}"]] if (level + ki) % 2 else []
+                body = pre + [["probe", "a"], ["render", f"r{pid}", dict(kws[ki]), body], ["probe", "b"]]
+            for wrap in ("none", "for", "with"):
+                ops = body
+                if wrap == "for":
+                    ops = [["for", "c", "xs", body]]
+                elif wrap == "with":
+                    ops = [["with", {"b": "W1", "c": "@a"}, body]]
+                yield ops + probes
+
+
 # property names that are also words of the expression grammar: after a dot (and as a quoted key) they are names like any other
 WORD_KEYS = ["limit", "offset", "for", "if", "contains", "empty", "with", "in", "and", "or", "not", "true", "false", "nil", "null", "blank", "continue", "reversed", "cols", "as", "required", "else"]
 
@@ -637,6 +675,11 @@ def word_key_paths(ctx: core.Ctx):
 def cases(ctx: core.Ctx):
     rng = ctx.rng("cases")
     yield from word_key_paths(ctx)
+    layer_sets = [{"args": {"a": "ARG_a", "c": "ARG_c"}, "matter": {"b": "MAT_b"}, "tglobals": {"a": "TG_a"}, "eglobals": {"b": "EG_b", "c": "EG_c"}}, {"args": {}, "matter": {}, "tglobals": {}, "eglobals": {"a": "EG_a"}},
+                  {"args": {"b": "ARG_b"}, "matter": {"a": "MAT_a", "c": "MAT_c"}, "tglobals": {}, "eglobals": {}}]
+    for gi, ops in enumerate(nested_render_programs()):
+        if gi % ctx.nshards == ctx.shard:
+            yield {"kind": "scope", "ops": ops, **layer_sets[gi % 3], "async": gi % 4 == 0}
     yield from enum_paths(ctx)
     layers = {"args": {"a": "ARG_a", "c": "ARG_c"}, "matter": {"b": "MAT_b"}, "tglobals": {"a": "TG_a", "forloop": "TG_forloop"}, "eglobals": {"b": "EG_b"}}
     for gi, ops in enumerate(abandoned_blocks()):
